@@ -169,7 +169,7 @@ func genR(r *vlib.R, q aQ, cfg deployCfg, proto string, target int, jitter int) 
 	if r.Chance(1, 30) {
 		u.mode = 'n'
 	} else if r.Chance(1, 25) {
-		u.mode = 'p'
+		u.mode = vlib.Pick(r, []byte{'p', 'P'})
 	}
 	switch r.Intn(10) {
 	case 0:
@@ -652,7 +652,12 @@ func gen(r *vlib.R, n int, tier string, emit func(string)) {
 	for l := 0; l < lives; l++ {
 		cfg := genCfg(r)
 		withCache := l%3 != 2
-		emit(fmt.Sprintf("srv new %s %s", cfgArgs(cfg), vlib.B(withCache)))
+		if l%3 == 1 {
+			// the rate limiter (cookie check, BADCOOKIE) stands ahead of edns on this one
+			emit(fmt.Sprintf("srv new %s %s rl=100000", cfgArgs(cfg), vlib.B(withCache)))
+		} else {
+			emit(fmt.Sprintf("srv new %s %s", cfgArgs(cfg), vlib.B(withCache)))
+		}
 		var pool []aQ
 		for k := 0; k < per; k++ {
 			entry := vlib.Pick(r, []string{"rawudp", "rawudp", "rawtcp", "inline", "msgdoh", "msgdoq", "http", "sockudp", "sockudp", "socktcp", "socktcp", "sockdoq"})
@@ -667,6 +672,53 @@ func gen(r *vlib.R, n int, tier string, emit func(string)) {
 			if r.Chance(1, 12) {
 				// the same malformed stream at the entries that have no header gate of their own
 				emit(rawOp(vlib.Pick(r, []string{"http", "msgdoh", "msgdoq", "rawudp", "rawudp", "rawtcp", "rawtcp", "inline"}), genMalformed(r, nil)))
+				continue
+			}
+			if r.Chance(1, 12) {
+				// alias chase out of the cache: a target and a bare alias to it
+				// are warmed in with independent AD bits, then the alias is asked
+				// again by clients that did / did not ask for AD, on the byte path
+				// and on the message path
+				tq := genQ(r)
+				tq.opcode, tq.qtype, tq.cd, tq.mask, tq.rd = 0, int(dns.TypeTXT), false, 0, true
+				tq.opt = aOpt{present: true, udp: 1232, do: true}
+				tu := aR{mode: 'e', ra: true, ad: r.Bool()}
+				ta := aRR{kind: 'A', id: 1, p: 10 + r.Intn(20), owner: 'q'}
+				measure(&ta, tq.id)
+				tu.an = []aRR{ta}
+				seeded := withCache && r.Chance(2, 3)
+				if seeded {
+					emit(fmt.Sprintf("srv seed %s %s", tq, tu))
+				} else {
+					emit(fmt.Sprintf("srv q rawudp %s %s", tq, tu))
+				}
+				aq := genQ(r)
+				for aq.id == tq.id {
+					aq = genQ(r)
+				}
+				aq.opcode, aq.qtype, aq.cd, aq.mask, aq.rd = 0, int(dns.TypeTXT), false, 0, true
+				aq.opt = aOpt{present: true, udp: 1232, do: true}
+				au := aR{mode: 'e', ra: true, ad: r.Chance(2, 3)}
+				au.an = []aRR{{kind: 'C', id: 1, p: tq.id, owner: 'q'}}
+				if seeded {
+					emit(fmt.Sprintf("srv seed %s %s", aq, au))
+				} else {
+					emit(fmt.Sprintf("srv q rawudp %s %s", aq, au))
+				}
+				for h := 0; h < 4; h++ {
+					hq := aq
+					hq.ad, hq.cd = r.Chance(1, 3), r.Chance(1, 6)
+					switch r.Intn(3) {
+					case 0:
+						hq.opt = aOpt{}
+					case 1:
+						hq.opt = aOpt{present: true, udp: vlib.Pick(r, []int{512, 1232, 4096}), do: r.Chance(1, 4), opts: genClientOptions(r)}
+					default:
+						hq.opt = aOpt{present: true, udp: 1232}
+					}
+					emit(fmt.Sprintf("srv q %s %s %s", vlib.Pick(r, []string{"rawudp", "rawtcp", "inline", "sockudp", "socktcp", "msgdoh", "sockdoq"}), hq, au))
+				}
+				k += 5
 				continue
 			}
 			if r.Chance(1, 10) {
@@ -718,7 +770,7 @@ func gen(r *vlib.R, n int, tier string, emit func(string)) {
 				target = limitOf(q) + vlib.Pick(r, []int{-40, -3, -1, 0, 1, 2, 40, 900, 3000})
 			}
 			u := genR(r, q, cfg, proto, target, 0)
-			if u.mode != 'p' {
+			if u.mode != 'p' && u.mode != 'P' {
 				u.mode = 'e'
 			}
 			emit(fmt.Sprintf("srv q %s %s %s", entry, q, u))
